@@ -157,20 +157,50 @@ int main(int argc, char** argv) {
           tr.raw("End RK_" + nm + ".\n\n");
           ll = tr.def_paths(nm + "_lin", {lam, t0, h, y0, eps}, [&] { return std::vector<Sym>{rk_step<Sym>(w, rl, t0, h, y0, eps)}; });
         }
-        // tableau (c_i, b_i) from the first accepting leaf; the Coq theorem covers every accepting leaf
-        const Leaf* acc = nullptr;
-        for (auto& L : lg)
-          if (L.error.empty() && acc == nullptr) acc = &L;
-        if (acc == nullptr) {
+        // tableau (c_i, b_i): every distinct value returned by an accepting leaf must carry the same table
+        RatEnv e01{{"t0", Rat{0, 1}}, {"h", Rat{1, 1}}, {"y0", Rat{0, 1}}, {"eps", Rat{1, 1}}};
+        std::vector<Sym> outs, louts;
+        std::vector<Rule> rules;
+        size_t nacc = 0;
+        for (auto& L : lg) {
+          if (!L.error.empty()) continue;
+          ++nacc;
+          bool dup = false;
+          for (auto& o : outs) dup = dup || node_of(o) == node_of(L.out.at(0));
+          if (dup) continue;
+          Rule R0 = rule_table(L.out[0], "g", e01);
+          if (R0.tab.empty()) continue;  // no step taken (leaf only reachable with h <= 0): discarded by the Coq side under 0 < h
+          outs.push_back(L.out[0]);
+          rules.push_back(R0);
+          if (!same_table(rules[0].tab, rules.back().tab)) {
+            for (auto& R : rules) {
+              std::printf("TABLES");
+              for (auto& kv : R.tab) std::printf(" (%.17g, %.17g)", rdouble(kv.first), rdouble(kv.second));
+              std::printf("\n");
+            }
+            std::printf("TRACE-FAIL %s: accepting leaves carry different tableaux\n", nm.c_str());
+            return 1;
+          }
+        }
+        for (auto& L : ll) {
+          if (!L.error.empty()) continue;
+          bool dup = false;
+          for (auto& o : louts) dup = dup || node_of(o) == node_of(L.out.at(0));
+          if (!dup && node_of(L.out[0]) != node_of(y0)) louts.push_back(L.out[0]);
+        }
+        if (outs.empty() || louts.empty()) {
           std::printf("TRACE-FAIL %s: no accepting leaf\n", nm.c_str());
           return 1;
         }
-        RatEnv e01{{"t0", Rat{0, 1}}, {"h", Rat{1, 1}}, {"y0", Rat{0, 1}}, {"eps", Rat{1, 1}}};
-        auto tab = rule_table(acc->out[0], "g", e01);
+        const auto& tab = rules[0].tab;
         tr.raw(table_def(nm + "_tab", tab));
-        size_t nacc = 0;
-        for (auto& L : lg) nacc += L.error.empty();
-        std::printf("TABLE %s_tab %zu leaves %zu accepting %zu\n", nm.c_str(), tab.size(), lg.size(), nacc);
+        args_def(tr, nm, {t0, h}, rules);
+        // the distinct values returned by accepting leaves
+        tr.raw("Section RKo_" + nm + ".\nVariable g : R -> R.\n");
+        tr.def(nm + "_g_outs", {t0, h, y0}, outs);
+        tr.raw("End RKo_" + nm + ".\n\n");
+        tr.def(nm + "_lin_outs", {lam, t0, h, y0}, louts);
+        std::printf("TABLE %s_tab %zu leaves %zu accepting %zu distinct %zu\n", nm.c_str(), tab.size(), lg.size(), nacc, outs.size());
         for (auto& kv : tab) std::printf("NODE %s %.17g %.17g\n", nm.c_str(), rdouble(kv.first), rdouble(kv.second));
         // agreement with the double instantiation (both right-hand sides)
         for (int i = 0; i < 60; ++i) {
